@@ -19,7 +19,8 @@ theorem prefixRegsE_eq (pfx : Str) (uri : StrSpan) : prefixRegsE pfx uri = prefi
 
 def Builder.stepRegsE (b : Builder) : Token → List Reg
   | .attribute pfx loc value _ =>
-    if pfx.text == ['x', 'm', 'l', 'n', 's'] then prefixRegsE loc.text value
+    if pfx.bareColon then []
+    else if pfx.text == ['x', 'm', 'l', 'n', 's'] then prefixRegsE loc.text value
     else if pfx.text.isEmpty && loc.text == ['x', 'm', 'l', 'n', 's'] then prefixRegsE [] value
     else []
   | t => b.stepRegs t
